@@ -45,6 +45,14 @@ type EQuant struct {
 }
 type ECond struct{ C, A, B Expr }
 
+// EMethod is "x.Name(args)": a package-qualified function or macro when x is
+// a package name, otherwise a call of a Go method on the value x.
+type EMethod struct {
+	X    Expr
+	Name string
+	Args []Expr
+}
+
 type tok struct {
 	kind string // ident int str char op eof
 	text string
@@ -343,8 +351,8 @@ func (ps *parser) postfix() (Expr, error) {
 			if n.kind != "ident" {
 				return nil, fmt.Errorf("field name expected at %d in %q", n.pos, ps.src)
 			}
-			// qualified call pkg.F(args)
-			if id, ok := e.(*EIdent); ok && ps.isOp("(") {
+			// qualified call pkg.F(args) or method call x.M(args)
+			if ps.isOp("(") {
 				ps.next()
 				var args []Expr
 				for !ps.isOp(")") {
@@ -362,7 +370,7 @@ func (ps *parser) postfix() (Expr, error) {
 				if err := ps.expect(")"); err != nil {
 					return nil, err
 				}
-				e = &ECall{id.Name + "." + n.text, args}
+				e = &EMethod{X: e, Name: n.text, Args: args}
 				continue
 			}
 			e = &EField{e, n.text}
@@ -442,6 +450,7 @@ type FuncContract struct {
 	Opaque    bool // body not verified: contract is trusted
 	Pure      bool // extern: no heap effect
 	NoInline  bool
+	InlineCalls bool
 	Overflow  bool     // emit overflow obligations for signed arithmetic too
 	Wraps     bool     // unsigned arithmetic wraps intentionally; no underflow obligations
 	Fresh     []string // result names declared fresh (allocated by the call)
@@ -489,6 +498,7 @@ type PkgContracts struct {
 	Lemmas   map[string]*Lemma
 	Order    []string
 	Ghosts   []*Ghost
+	Immutable []string
 	ChanInvs map[string][]*Clause // "Type.field" -> invariant over v
 }
 
@@ -505,7 +515,7 @@ var clauseKeywords = map[string]bool{
 	"requires": true, "ensures": true, "modifies": true, "loop": true, "maypanic": true,
 	"opaque": true, "pure": true, "assume": true, "noinline": true, "overflow": true,
 	"wraps": true, "fresh": true, "at": true, "induction": true, "params": true,
-	"ghost": true, "chaninv": true, "ufunc": true,
+	"ghost": true, "chaninv": true, "ufunc": true, "immutable": true, "inline": true,
 }
 
 // parseContractLines parses the "//@" lines of one package.
@@ -538,6 +548,9 @@ func parseContractLines(pkg string, lines []string) (*PkgContracts, error) {
 	for _, s := range stmts {
 		kw, rest := splitKeyword(s)
 		switch kw {
+		case "immutable":
+			pc.Immutable = append(pc.Immutable, strings.Fields(rest)...)
+			cur, curLemma = nil, nil
 		case "ghost":
 			f := strings.Fields(rest)
 			if len(f) != 2 {
@@ -714,6 +727,9 @@ func parseContractLines(pkg string, lines []string) (*PkgContracts, error) {
 			cur.Pure = true
 		case "noinline":
 			cur.NoInline = true
+		case "inline":
+			// callers translate the body instead of using the contract
+			cur.InlineCalls = true
 		case "overflow":
 			cur.Overflow = true
 		case "wraps":
